@@ -321,6 +321,35 @@ pub fn raw_parse(g: Grammar, text: &str, capacity: Option<usize>, rec_key: bool)
     (r, c)
 }
 
+#[derive(Clone, Copy, Debug, PartialEq)]
+pub enum K3Verdict {
+    Explained,
+    NotExplained,
+    Inconclusive,
+}
+
+/// Is the rejection of the (already preprocessed) `text` by the production parser an instance of listed finding K3
+/// as it shows outside C17? Signature: the production configuration (capacity 1024, production key) rejects, the
+/// unbounded table accepts, and the unbounded table with the recursion flags in the key accepts as well.
+pub fn k3_explains_rejection(g: Grammar, text: &str) -> K3Verdict {
+    const BUDGET: u64 = 30_000_000;
+    match raw_parse_budget(g, text, hooks::DEFAULT_CAPACITY, false, Some(BUDGET)).0 {
+        MemoOutcome::Accepted(_) => return K3Verdict::NotExplained,
+        MemoOutcome::Budget => return K3Verdict::Inconclusive,
+        MemoOutcome::Rejected => {}
+    }
+    match raw_parse_budget(g, text, None, false, Some(BUDGET)).0 {
+        MemoOutcome::Rejected => return K3Verdict::NotExplained,
+        MemoOutcome::Budget => return K3Verdict::Inconclusive,
+        MemoOutcome::Accepted(_) => {}
+    }
+    match raw_parse_budget(g, text, None, true, Some(BUDGET)).0 {
+        MemoOutcome::Rejected => K3Verdict::NotExplained,
+        MemoOutcome::Budget => K3Verdict::Inconclusive,
+        MemoOutcome::Accepted(_) => K3Verdict::Explained,
+    }
+}
+
 #[derive(Clone, Debug, PartialEq)]
 pub enum MemoOutcome {
     Accepted(RawTree),
